@@ -439,7 +439,8 @@ def _known_const(stmts, local, depth=0):
 
 def _eval_stmts(stmts, env, F=None):
     """constant propagation over a straight-line statement list: env maps a local to an int it is known to hold; locals assigned
-    anything else become unknown. Only whole-local assignments of constants, moves, `!x`, `-x` and comparisons with constants count."""
+    anything else become unknown. Only whole-local assignments of constants, moves and `!x` count (comparisons are deliberately not
+    evaluated: `state = K; if state == K` keeps its edge fact, which rules use to know the value of `state`)."""
     env = dict(env)
     for st in stmts:
         if st["k"] != "assign":
@@ -466,10 +467,6 @@ def _eval_stmts(stmts, env, F=None):
                 ty = F["locals"][rv["a"]["p"]["l"]].get("ty")
             if x in (0, 1) and ty == "bool":
                 val = 1 - x
-        elif rv["k"] == "binop" and rv.get("op") in ("Eq", "Ne"):
-            x, y = opv(rv["a"]), opv(rv["b"])
-            if x is not None and y is not None:
-                val = int((x == y) == (rv["op"] == "Eq"))
         if val is None:
             env.pop(dl, None)
         else:
@@ -484,7 +481,7 @@ def _simple_forward(B):
     for st in B["stmts"]:
         if st["k"] in ("storage_live", "storage_dead", "nop", "fake_read"):
             continue
-        if st["k"] != "assign" or st["dst"].get("p") or st["rv"]["k"] not in ("use", "unop", "binop"):
+        if st["k"] != "assign" or st["dst"].get("p") or st["rv"]["k"] not in ("use", "unop"):
             return False
         ops = [st["rv"].get("a"), st["rv"].get("b")]
         if any(o is not None and o.get("k") in ("move", "copy") and o["p"].get("p") for o in ops):
@@ -509,9 +506,11 @@ def thread_consts(F):
             t = J["term"]
             if t["k"] != "switch" or J.get("cleanup") or t["discr"].get("k") not in ("move", "copy") or t["discr"]["p"].get("p"):
                 continue
-            if any(st["k"] == "assign" and (st["dst"].get("p") or st["rv"]["k"] not in ("use", "unop", "binop")) for st in J["stmts"]):
+            if any(st["k"] == "assign" and (st["dst"].get("p") or st["rv"]["k"] not in ("use", "unop")) for st in J["stmts"]):
                 continue
             d = t["discr"]["p"]["l"]
+            if F["locals"][d].get("ty") != "bool":
+                continue
             # chains P -> (simple forwarding blocks)* -> J
             work = [(pid, []) for pid in preds.get(J["id"], [])]
             seen = set()
